@@ -204,7 +204,7 @@ def mon_drv(case):
             return None, known            # nothing after a panic is judged
         if not mapped:
             return 'operation %d (%s %#x +%d) touched an unmapped page without failing' % (k, kind, op['addr'], n), known
-        if kind in ('h2d', 'd2h') and not case['magic']:
+        if kind in ('h2d', 'd2h'):
             if not op['completed']:
                 return 'operation %d (%s) never completed although all %d requests were answered' % (k, kind, op['total']), known
             if op['completed_after'] != op['total']:
@@ -215,6 +215,8 @@ def mon_drv(case):
                         % (k, kind, op['addr'], n)), known
             if op['flush'] and op['nflush'] != case['ngpu']:
                 return 'operation %d flushed %d of %d GPUs' % (k, op['nflush'], case['ngpu']), known
+            if case['magic'] and op['reqs']:
+                return 'operation %d: the global-storage middleware sent copy requests' % k, known
             # the requests move exactly the translated bytes, each once, each inside one page, to the owning GPU
             seen = {}
             for r in op['reqs']:
@@ -228,7 +230,7 @@ def mon_drv(case):
                         return 'operation %d: physical byte %#x transferred twice' % (k, r['pa'] + i), known
                     seen[r['pa'] + i] = r['data'][i] if kind == 'h2d' else None
             want = {tr(op['addr'] + i): (op['data'][i] if kind == 'h2d' else None) for i in range(n)}
-            if injective and seen != want:
+            if injective and not case['magic'] and seen != want:
                 return 'operation %d (%s %#x +%d): the requests do not move exactly the requested bytes' % (k, kind, op['addr'], n), known
         if kind in ('h2d', 'accw'):
             for i in range(n):
